@@ -92,7 +92,7 @@ def run_property(pid, tier, seed, replay=None):
     # the translator could not regenerate a fact this property's theorems are stated over: the committed default was
     # used for it, so the theorems no longer speak about what the code says now - the tie is broken until a failing
     # input is found (or the translator is taught the new shape of the code)
-    lost = [f for f in spec.get("facts", []) if f in facts.get("degraded", [])]
+    lost = [f for f in spec.get("facts", []) if any(d == f or d.startswith(f + ":") for d in facts.get("degraded", []))]
     if lost:
         broken.append("tools/srcfacts.py could not regenerate from the source: " + ", ".join(lost) +
                       " (the committed default was used; the theorems are no longer tied to the code for these facts)")
